@@ -1058,6 +1058,47 @@ Proof.
   inversion E; subst. apply safe_add_snap, safe_snap_frame. exact Hs.
 Qed.
 
+(** the copy after a FULL/RESTART checkpoint as commit 20b75a5 runs it *)
+Lemma safe_strict s :
+  safe s -> idleish (pc data s) = false -> safe (strict_ss data s).
+Proof.
+  intros Hs Hi. pose proof Hs as [K S W L T O N P F Q G Z].
+  constructor; unfold strict_ss, freshlostb, weakb, lastoff, flag, openmark, reached in *; cbn in *;
+    rewrite ?Hi in *; cbn in *; try assumption.
+  - intros A. destruct (O A) as [_ [O2 O3]]. auto.
+  - reflexivity.
+Qed.
+
+Lemma safe_merge s r :
+  safe s -> idleish (pc data s) = false -> opened data s = true -> safe (merge_reached data s r).
+Proof.
+  intros Hs Hi Ho. pose proof Hs as [K S W L T O N P F Q G Z].
+  constructor; unfold merge_reached, freshlostb, weakb, lastoff, flag, openmark, reached in *; cbn in *;
+    rewrite ?Hi in *; cbn in *; try assumption.
+  all: try solve [intros A; congruence].
+  all: try solve [intros A; apply orb_false_iff in A; destruct A as [A _]; apply Z; exact A].
+Qed.
+
+Lemma safe_LsPostSync s k s' :
+  inv s -> safe s -> step s (LsPostSync data k) = Some s' -> safe s'.
+Proof.
+  intros H Hs E. cbn in E.
+  destruct (pc data s) as [| | | | | | |m hg pre wn rb| | | | | | |] eqn:Epc; try discriminate.
+  destruct (needs_post true m rb) eqn:En; [|discriminate].
+  destruct (do_sync (strict_ss data s) k) as [s1|] eqn:Ed; [|discriminate]. inversion E; subst s'. clear E.
+  unfold needs_post in En. cbn in En. apply andb_prop in En. destruct En as [Hf Hr].
+  apply negb_true_iff in Hr. subst rb.
+  assert (Hi : idleish (pc data s) = false) by (rewrite Epc; reflexivity).
+  assert (H1 : inv (strict_ss data s)) by (unfold strict_ss; apply inv_set_ss; exact H).
+  assert (Hs1 : safe (strict_ss data s)) by (apply safe_strict; assumption).
+  pose proof (safe_postcopy (strict_ss data s) k s1 m hg pre wn H1 Hs1 Ed Epc Hf) as Hp.
+  destruct (do_sync_frame _ _ _ Ed) as [_ [_ [_ [_ [_ [F6 [_ [F8 _]]]]]]]].
+  change (set_pc data (merge_reached data s1 (reached data s)) (PPost m hg pre wn))
+    with (merge_reached data (set_pc data s1 (PPost m hg pre wn)) (reached data s)).
+  apply safe_merge; [exact Hp|reflexivity|].
+  cbn. rewrite F6. exact F8.
+Qed.
+
 (** ** every step preserves [safe] (control flow with both fixes) *)
 Theorem safe_step s l s' :
   inv s -> safe s -> window_ok data true recheck true s l = true ->
@@ -1084,6 +1125,8 @@ Proof.
   - eapply safe_LsKill; eauto.
   - eapply safe_LsSnapPos; eauto.
   - eapply safe_LsSnapRead; eauto.
+  - cbn in Hwin. discriminate.
+  - eapply safe_LsPostSync; eauto.
   - cbn in Hwin. discriminate.
 Qed.
 
